@@ -19,6 +19,7 @@ open Genshi Genshi.Incl Genshi.Sexp
     kept <files> <entry> <kind>   → ( ok target … ) | err : resolved targets of the statically named includes
                                     still present in the prepared entry, in document order
     inh <files>            → T | F     (the theorem's hypothesis, with T = all match tags of the file set)
+    inh <files> w          → ( T|F T|F )   inH and inHW (the hypothesis without "every file is well-formed")
     resolve <pos> <href>   → name | N
 -/
 
@@ -172,6 +173,10 @@ def handle : List Sexp → Option Sexp
   | [.atom "inh", files] => do
       let files ← files? files
       pure (ofBool (inH (matchTags files) files))
+  | [.atom "inh", files, .atom "w"] => do
+      -- both hypotheses: inH, and inHW (ill-formed files allowed)
+      let files ← files? files
+      pure (.list [ofBool (inH (matchTags files) files), ofBool (inHW (matchTags files) files)])
   | [.atom "resolve", .str pos, .str href] =>
       match resolve pos href with
       | some n => some (.str n)
